@@ -11,7 +11,8 @@ from vlib.runner import fail, hyp_run, HarnessError
 LEVEL = "exploration"
 RULE = ("Hypothesis-generated Lipschitz objectives with closed-form global minimum and Lipschitz bound (cones, "
         "absolute-value sums, linear, bowls with vertex in/outside the box, separable sines, 1-D piecewise "
-        "linear), N=1..5, arbitrary boxes, r in [1.01,16], eps in (0,1), density 8..12, itersLimit 20000; two "
+        "linear), N=1..5, arbitrary boxes, r in [1.01,16], eps in (0,1), density 8..12, itersLimit 5000, a fifth of the cases first "
+        "run with a budget of 3..40 trials, after which the budget is raised and Solve is called again; two "
         "classes: 'unconditional' (objective scaled so K_N*L <= r) and 'conditional' (arbitrary L, precondition "
         "r*M >= K_N*L evaluated from the observed history). Non-trivial: accuracy stop reached, precondition "
         "true and >=10 trials. Distinct = distinct case digest.")
@@ -20,7 +21,7 @@ ASSUMPTIONS = [
     "precondition evaluated with M just before the last decision, conclusion with the final M (M_dec <= M_fin): "
     "the check asserts the stated bound on a subset of the stated hypothesis",
     "comparison tolerance 1e-12*(1+|f*|+|best|)",
-    "eps >= the per-dimension cost floor (1e-5, 3e-3, 0.03, 0.05, 0.1 for N=1..5); runs that hit itersLimit or "
+    "eps >= the per-dimension cost floor (1e-5 or, in a third of the 1-D cases, 1e-6; 3e-3, 0.03, 0.05, 0.1 for N=2..5); runs that hit itersLimit or "
     "end by float-resolution exhaustion are counted as inconclusive",
 ]
 NONTRIVIAL_FLOOR = {"quick": 300, "thorough": 3000}
@@ -40,25 +41,38 @@ def cases(draw):
     recipe = draw(gen.problem_recipe(exact_only=True, densities=(10, 10, 8, 12)))
     n = recipe["n"]
     r = draw(gen.r_values)
-    eps = draw(gen.eps_values(n, recipe["density"], cheap=True, upto=0.5))
+    # N=1: a third of the cases go down to eps=1e-6 (the float-resolution floor); otherwise the per-dimension cost floor
+    cheap = n > 1 or draw(st.integers(0, 2)) > 0
+    eps = draw(gen.eps_values(n, recipe["density"], cheap=cheap, upto=0.5))
     if eps >= 1.0:
         eps = 0.5
     cls = draw(st.sampled_from(["unconditional", "conditional"]))
     if cls == "unconditional":
         L = ob.lipschitz(recipe["obj"])
-        if L > 0:
+        if L > 1e-100:     # (a flatter objective satisfies K_N*L <= r as it is; scaling it up would overflow)
             u = draw(st.sampled_from([0.999, 0.999, 0.5, 0.1]))
             recipe = dict(recipe, obj=ob.scaled(recipe["obj"], u * r / (K(n) * L)))
-    return {"recipe": recipe, "params": {"r": r, "eps": eps, "itersLimit": 20000}, "class": cls}
+    case = {"recipe": recipe, "params": {"r": r, "eps": eps, "itersLimit": 5000}, "class": cls}
+    if draw(st.integers(0, 4)) == 0:
+        # the search is first run with a small budget, then the budget is raised and Solve is called again: the
+        # statement is about the Solve that ends with the accuracy stop, however the trials before it were spent
+        case["first_limit"] = draw(st.sampled_from([3, 5, 10, 20, 40]))
+    return case
 
 
 def body(case):
     recipe, p = case["recipe"], case["params"]
     n, r, eps = recipe["n"], p["r"], p["eps"]
-    run = Run(recipe, p)
+    if case.get("first_limit"):
+        run = Run(recipe, dict(p, itersLimit=case["first_limit"]))
+        run.solve()
+        run.sp.itersLimit = p["itersLimit"]
+    else:
+        run = Run(recipe, p)
     sol = run.solve()
     hist = run.history()
-    classes = ["N=%d" % n, "class=" + case["class"], "family=" + recipe["obj"]["family"]]
+    classes = ["N=%d" % n, "class=" + case["class"], "family=" + recipe["obj"]["family"],
+               "budget-raised-then-solved-again" if case.get("first_limit") else "single-solve"]
     if "Exception was thrown" in run.stdout():
         if not swallowed_exception_is_float_resolution(run):
             fail("Solve swallowed an internal exception after %d trials" % len(hist))
